@@ -7,7 +7,7 @@ import (
 func init() {
 	Register(&Property{
 		ID:    "C11",
-		Floor: 45,
+		Floor: 50,
 		Clauses: "receive-window enforcement as dominating guards: inflow.take and takeInflows refuse n > avail (strict comparison, so n == avail is accepted) before any decrement, decrement every window by the same n and return true only after the decrements; " +
 			"inflow.avail is written only by inflow.init/add/take and takeInflows; " +
 			"server processData: the only body write is dominated by a successful takeInflows(connection window, addressed stream's window, full frame length), delivers exactly Data(f), " +
